@@ -324,6 +324,39 @@ def tie_b(prop, cases, seed, tier, priority):
     return stats, problems
 
 
+# ------------------------------------------------------------------ rustc diagnostics of rejected items (tie C)
+def tie_c(prop, cases, seed, tier):
+    """rejected items and attribute token soups through the REAL proc-macro entry points, judged from rustc's JSON diagnostics"""
+    import concurrent.futures
+    import diag
+    if prop not in ('C15', 'C16'):
+        return None, []
+    cfgs = PROPS[prop]['cfgs']
+    n_soup = 400 if tier == 'quick' else 4000
+    out, problems = {}, []
+    with concurrent.futures.ThreadPoolExecutor(max_workers=10) as ex:
+        futs = {ex.submit(diag.run, c, cases): ('rejected', c) for c in cfgs}
+        if prop == 'C16':
+            futs.update({ex.submit(diag.run_soups, c, seed, n_soup): ('soups', c) for c in cfgs})
+        for f in concurrent.futures.as_completed(futs):
+            st, pr = f.result()
+            out.setdefault(futs[f][0], {})[futs[f][1]] = st
+            problems += pr
+    mine = []
+    for p in problems:
+        no_error = p['why'].startswith('the real macro raised no error')
+        if (prop == 'C15' and no_error) or (prop == 'C16' and not no_error):
+            mine.append(p)
+    stats = dict(rejected_items_checked=sum(s['checked'] for s in out['rejected'].values()),
+                 ill_posed_discarded=sum(s['ill_posed'] for s in out['rejected'].values()),
+                 errors_seen=sum(s['errors_seen'] for s in out['rejected'].values()),
+                 soups=sum(s['soups'] for s in out.get('soups', {}).values()),
+                 soups_accepted=sum(s['accepted_without_error'] for s in out.get('soups', {}).values()),
+                 per_cfg={k: {c: {a: b for a, b in s.items() if not a.startswith('_')} for c, s in v.items()} for k, v in out.items()},
+                 samples=[x for s in out['rejected'].values() for x in s.get('_samples', [])][:2])
+    return stats, mine
+
+
 # ------------------------------------------------------------------ known findings
 def known_findings(prop, cases):
     """open findings of this property whose witness still shows the failing construct in the REAL expansion"""
@@ -425,6 +458,12 @@ def check(prop, tier, seed):
             violations.insert(0, (dict(kind='failing-input', property=prop, observed=q,
                                        note='the real macro, compiled by rustc and run on this input, contradicts the reference semantics of the property',
                                        replay_cmd='./dwv replay <this file>'), True))
+    cstats, cprobs = tie_c(prop, cases, seed, tier)
+    for p in cprobs[:5]:
+        found_cases.add(p['case'])
+        violations.insert(0, (dict(kind='diagnostics', property=prop, observed=p,
+                                   note='rustc, running the real proc-macro entry points on this item, reports diagnostics that contradict the property',
+                                   replay_cmd='./dwv replay <this file>'), True))
     # a correspondence break that the behaviour run explains counts as found
     if found_cases:
         violations = [v for v in violations if v[1] or v[0].get('kind') != 'correspondence' or v[0]['disagreement']['case'] not in found_cases]
@@ -451,6 +490,7 @@ def check(prop, tier, seed):
             correspondence=stats, disagreements_owned=len(mine), disagreements_other_properties=others,
             known_findings_reproduced=[k['id'] for k in known],
             behaviour=bstats if bstats else 'not applicable to this property',
+            rustc_diagnostics=cstats if cstats else 'not applicable to this property',
             extraction_crosscheck_vm_compute=xc,
             samples=samples, exhaustive=False),
         assumptions=TRUSTED_BASE)
@@ -462,6 +502,9 @@ def check(prop, tier, seed):
         print('KNOWN-FINDING: property=%s %s %s' % (prop, k['id'], k['what']))
     if bstats:
         print('behaviour (real rustc): %d items, %d values, %d observations compared with Sem(Gen) and Spec; %d problems (%d on known-finding witnesses)' % (bstats['items'], bstats['values'], bstats['observations'], len(bprobs), len([p for p in bprobs if p['case'] in kf_cases])))
+    if cstats:
+        print('diagnostics (real rustc, real entry points): %d rejected items (%d errors, %d ill-posed discarded), %d token soups (%d accepted); %d problems'
+              % (cstats['rejected_items_checked'], cstats['errors_seen'], cstats['ill_posed_discarded'], cstats['soups'], cstats['soups_accepted'], len(cprobs)))
     if model_sem_mismatch and not violations:
         p = model_sem_mismatch[0]
         print('MODEL-SEMANTICS-MISMATCH (no verdict): Sem.v disagrees with rustc on %s %s tag=%s' % (p['cfg'], p['case'], p['tag']))
